@@ -153,7 +153,12 @@ def configs(tier):
     # integer weights keep the dtype integral
     cs.append({"dim": 1, "axes": ["regular"], "klass": "Static", "right": [False], "keep_missed": True, "start": "int",
                "weights": [None, 2], "N": n1, "B": 2, "level": lvl, "dfs": 2})
-    # the known defect region (gapped bins + integer contents), tiny bound
+    # histories that start from copy(include_frequencies=False) of a filled histogram
+    cs.append({"dim": 1, "axes": ["regular"], "klass": "Static", "right": [False], "keep_missed": True, "start": "int",
+               "weights": [None, 2], "N": 2, "B": 2, "level": 1, "dfs": 2, "via_empty_copy": True})
+    cs.append({"dim": 2, "axes": ["two", "three_irr"], "klass": "Static", "right": [True, False], "keep_missed": True, "start": "int",
+               "weights": [None, 0.5], "N": 2, "B": 1, "level": 1, "dfs": 1, "via_empty_copy": True})
+    # integer contents on gapped bins (was the known defect region before repair 932e147), tiny bound
     cs.append({"dim": 1, "axes": ["gapped"], "klass": "Static", "right": [False], "keep_missed": True, "start": "int",
                "weights": [None], "N": 1, "B": 1, "level": 1, "dfs": 1})
     n2 = 3 if thorough else 2
@@ -220,6 +225,12 @@ class FillSystem(H.System):
             obj = Histogram2D(b, keep_missed=self.km, dtype=dtype)
         else:
             obj = HistogramND(b, dimension=self.dim, keep_missed=self.km, dtype=dtype)
+        if self.cfg.get("via_empty_copy"):
+            # start from the emptied copy of a filled histogram instead of a freshly constructed one
+            inside = [(ax[0][0] + ax[0][1]) / 2 for ax in self.axes]
+            obj.fill(inside[0] if self.dim == 1 else np.array(inside))
+            obj.fill(inside[0] if self.dim == 1 else np.array(inside))
+            obj = obj.copy(include_frequencies=False)
         return ((), self.cfg["start"] == "float"), obj
 
     def key(self, model):
